@@ -15,7 +15,7 @@ RULE = ("programs of 1-3 contracted functions and 0-2 classes (1-2 instances eac
 def gen(rng, n):
     out = []
     for i in range(n):
-        g = G.GenRun(rng, is_async=(i % 4 == 3), faults=0.0, awaits=0.3)
+        g = G.GenRun(rng, is_async=(i % 4 == 3), faults=0.0, awaits=0.3, new_style=0.25)
         c = g.case()
         while not G.small_enough(c):
             c = g.case()
